@@ -2,6 +2,7 @@ package main
 
 import (
 	"context"
+	"errors"
 	"fmt"
 	"time"
 
@@ -328,5 +329,46 @@ func c19WsLarge(r *Run) {
 		}
 		r.Eval(fmt.Sprintf("ws.large/%d", n), true)
 		r.Count("ws.large")
+	}
+}
+
+// c19ChanClosed (scenario chan): the peer closes its end of the channel transport (close(inQ)): what was
+// written before arrives, and then Read FAILS — at once and every time — rather than blocking, spinning
+// or returning nothing; a Read with a finished context fails as well.
+func c19ChanClosed(r *Run) {
+	r.Progress("chan.closed", nil)
+	ab := make(chan *Rpc, 4)
+	rd := goat.NewGoatOverChannel(ab, make(chan *Rpc))
+	ab <- &Rpc{Id: 1}
+	ab <- &Rpc{Id: 2}
+	close(ab)
+	var ids []uint64
+	for i := 0; i < 5; i++ {
+		var e *Rpc
+		var err error
+		if !within(hangTimeout, func() {
+			ctx, cancel := context.WithTimeout(context.Background(), hangTimeout/2)
+			defer cancel()
+			e, err = rd.Read(ctx)
+		}) {
+			r.Violate("chan.closed", "ops", "Read on a channel transport whose peer has closed its end did not return", map[string]any{"read": i}, goroutineDump(), "an error")
+			return
+		}
+		if err == nil && e != nil {
+			ids = append(ids, e.Id)
+			continue
+		}
+		if err == nil && e == nil {
+			r.Violate("chan.closed", "ops", "Read returned neither an envelope nor an error", map[string]any{"read": i}, "(nil, nil)", "an error")
+			return
+		}
+		if errors.Is(err, context.DeadlineExceeded) {
+			r.Violate("chan.closed", "ops", "Read on a channel transport whose peer has closed its end only returned when its own context ended (the closure is never reported)", map[string]any{"read": i}, err.Error(), "an error saying the channel is closed, at once")
+			return
+		}
+	}
+	r.Eval("chan.closed", true)
+	if fmt.Sprint(ids) != "[1 2]" {
+		r.Violate("chan.closed", "ops", "what was written before the peer closed its end did not arrive", nil, fmt.Sprint(ids), "[1 2]")
 	}
 }
